@@ -112,6 +112,20 @@ def do_crash_sweep(ex, idx, op):
             ex.probe("crash_before_json")
         ex.pending_fault = {"op": "scan_fault", "kind": kind, "tick": t, "at": fired["at"], "path": fired["path"],
                             "byte": fired["byte"], "of": N}
+        if op.get("second"):
+            # a second interruption, during the scan that would have healed the first one
+            r2 = stream(nonce, "second", t)
+            t2 = r2.choice((0, 1, 2, 3)) if r2.random() < 0.2 else r2.randrange(0, N)
+            k2 = r2.choice(KINDS)
+            f2 = w.scan("%s/second/%d" % (nonce, t), fault={"kind": k2, "tick": t2}, set_policy=ex.set_policy, walk_policy=ex.walk_policy)
+            if f2.get("fault_fired"):
+                ex.probe("c10_double_fault")
+                ex.pending_fault["then"] = {"kind": k2, "tick": t2, "at": f2["fault_fired"]["at"]}
+                ex.subcase_digests.add(O.digest([kind, t, k2, t2, w.cache_class()]))
+                if f2["outcome"] == "internal_error":
+                    ex.add(violation("C10", "faulted_scan_fails_only_as_injected",
+                                     "second faulted scan (%s at tick %d after %s at tick %d) ended %s %s" % (k2, t2, kind, t, f2.get("exc"), f2.get("msg")),
+                                     idx, f2, narrow={"ticks": [t]}))
         nv = len(ex.viol)
         pre_cache, pre_class = w.cache_json(), post_class
         hobs = w.scan("%s/heal/%d" % (nonce, t), set_policy=ex.set_policy, walk_policy=ex.walk_policy)
@@ -216,11 +230,16 @@ def plan(tier):
             for kind in kinds:
                 for part in range(PARTS_CRASH):
                     cases.append(("crash", {"wi": wi, "start": start, "kind": kind, "part": part, "stride": stride}))
+    for wi in ((0,) if tier == "quick" else (0, 2)):
+        for start in STARTS:
+            for part in range(PARTS_CRASH // (4 if tier == "quick" else 1)):
+                cases.append(("crash2", {"wi": wi, "start": start, "kind": "crash", "part": part,
+                                         "parts": PARTS_CRASH // (4 if tier == "quick" else 1), "stride": 64 if tier == "quick" else 7}))
     sworlds = (0,) if tier == "quick" else (0, 1, 2)
     for wi in sworlds:
         for part in range(PARTS_STRUCT * (1 if tier == "quick" else 2)):
             cases.append(("struct", {"wi": wi, "part": part, "parts": PARTS_STRUCT * (1 if tier == "quick" else 2)}))
-    for wi in (0, 1, 2, 3):
+    for wi in ((0, 2) if tier == "quick" else (0, 1, 2, 3)):
         for start in STARTS:
             for j in range(len(SIMPLE_FAULTS)):
                 cases.append(("simple", {"wi": wi, "start": start, "j": j}))
@@ -241,10 +260,12 @@ def gen(i, R, tier):
     if i < len(P):
         kind, a = P[i]
         swarm["mode"] = kind
-        if kind == "crash":
+        if kind in ("crash", "crash2"):
             ops = world_ops(a["wi"], a["start"], rng)
             ops.append({"op": "crash_sweep", "kind": a["kind"], "nonce": G.nonce(rng),
-                        "stride": a["stride"], "parts": PARTS_CRASH, "part": a["part"]})
+                        "stride": a["stride"], "parts": a.get("parts", PARTS_CRASH), "part": a["part"]})
+            if kind == "crash2":
+                ops[-1]["second"] = True
         elif kind == "struct":
             ops = world_ops(a["wi"], "none", rng)
             ops.append({"op": "scan", "nonce": G.nonce(rng)})
